@@ -202,8 +202,8 @@ def gen_best(rng, tier):
             cands.append({"id": f"K{j}", "local_names": ln, "attempt": att, "_mix": mix})
         keys = sorted(rng.sample(names, rng.randint(0, 3)))
         if rng.random() < 0.3:
-            keys.append(L.UNKNOWN_KEY)
-        yield {"keys": keys, "cands": cands}
+            keys.insert(rng.randint(0, len(keys)), L.UNKNOWN_KEY)
+        yield {"keys": keys, "cands": cands, "config": {"fail_on_unknown_properties": i % 2 == 0}}
 
 
 def gen_bestcfg(rng, tier):
@@ -232,7 +232,7 @@ def impl_bestcfg(a):
 
 
 def impl_best(a):
-    return L.real_best(a["keys"], a["cands"])
+    return L.real_best(a["keys"], a["cands"], a.get("config"))
 
 
 CORRS = [
@@ -457,8 +457,6 @@ def check_dict(a):
 
 
 def covered_dict(a, msg):
-    if a["path"] and "Failed to bind object" in msg and "fail_on_unknown_properties=False" in msg:
-        return "C10-dict-best-rejects-unknown"
     return None
 
 
@@ -565,21 +563,20 @@ def spec_dict_seq(a):
         elif inj["kind"] == "key":
             if cfg["fail_on_unknown_properties"]:
                 want.append({"err": "ParserError"})
-            elif inj["inside_best"]:
-                want.append({"any": "C10-dict-best-rejects-unknown"})
             else:
                 want.append(base)
         else:
-            if cfg["fail_on_converter_warnings"]:
+            val = L.replace_in_val(u, base["ok"]["value"], inj["path"], inj["key"], {"str": inj["bad"]})
+            if val is None and not cfg["fail_on_unknown_properties"]:
+                # the object decoded to a class that does not declare the key (a subclass instance under a
+                # compound choice of its base class): the key is an unknown property, ignored with its value
+                want.append(base)
+            elif cfg["fail_on_converter_warnings"]:
                 want.append({"err": "ParserError"})
-            elif inj["inside_best"]:
-                want.append({"any": "C10-dict-best-strict-conversion"})
+            elif val is None:
+                want.append({"any": "position not addressable in the decoded value"})
             else:
-                val = L.replace_in_val(u, base["ok"]["value"], inj["path"], inj["key"], {"str": inj["bad"]})
-                if val is None:
-                    want.append({"any": "position not addressable in the decoded value"})
-                else:
-                    want.append({"ok": {"value": val, "warnings": base["ok"]["warnings"] + 1}})
+                want.append({"ok": {"value": val, "warnings": base["ok"]["warnings"] + 1}})
     return {"ok": {"docs": want, "config_after": {k: cfg[k] for k in L.FLAGS}}}
 
 
@@ -712,74 +709,9 @@ def finding_dict_derived():
     return still, "; ".join(out)
 
 
-def finding_dict_best():
-    from typing import Optional
-
-    from xsdata.formats.dataclass.parsers import DictDecoder
-    from xsdata.formats.dataclass.parsers.config import ParserConfig
-
-    Base = _mk("Base", [("x", Optional[str], {"type": "Element"})])
-    Sub = _mk("Sub", [("y", Optional[str], {"type": "Element"})], bases=(Base,))
-    Root = _mk("Root", [("b", Optional[Base], {"type": "Element"})])
-    import sys
-    import types
-
-    mod = types.ModuleType("c10_finding_models")
-    for c in (Base, Sub, Root):
-        c.__module__ = mod.__name__
-        setattr(mod, c.__name__, c)
-    sys.modules[mod.__name__] = mod
-    try:
-        d = DictDecoder(config=ParserConfig(fail_on_unknown_properties=False))
-        a = d.decode({"b": {"x": "1"}}, Root)
-        top = d.decode({"zz": 3, "b": {"x": "1"}}, Root)
-        try:
-            b = d.decode({"b": {"x": "1", "zz": 2}}, Root)
-        except Exception as e:  # noqa: BLE001
-            b = f"{type(e).__name__}: {e}"
-    finally:
-        sys.modules.pop(mod.__name__, None)
-    still = a == top and isinstance(b, str) and b.startswith("ParserError")
-    return still, f"lenient {{'b': {{'x': '1'}}}} -> {a}; unknown key at the top is ignored ({top == a}); nested {{'x': '1', 'zz': 2}} -> {b}"
-
-
-def finding_dict_best_strict():
-    import sys
-    import types
-    import warnings
-    from typing import Optional
-
-    from xsdata.formats.dataclass.parsers import DictDecoder
-    from xsdata.formats.dataclass.parsers.config import ParserConfig
-
-    Base = _mk("Base", [("n", Optional[int], {"type": "Element"})])
-    Sub = _mk("Sub", [("y", Optional[str], {"type": "Element"})], bases=(Base,))
-    Root = _mk("Root", [("b", Optional[Base], {"type": "Element"}), ("c", Optional[int], {"type": "Element"})])
-    mod = types.ModuleType("c10_finding_models2")
-    for c in (Base, Sub, Root):
-        c.__module__ = mod.__name__
-        setattr(mod, c.__name__, c)
-    sys.modules[mod.__name__] = mod
-    try:
-        d = DictDecoder(config=ParserConfig(fail_on_converter_warnings=False))
-        with warnings.catch_warnings(record=True) as w:
-            warnings.simplefilter("always")
-            top = d.decode({"c": "many"}, Root)
-            try:
-                b = d.decode({"b": {"n": "many"}}, Root)
-            except Exception as e:  # noqa: BLE001
-                b = f"{type(e).__name__}: {str(e)[:90]}"
-    finally:
-        sys.modules.pop(mod.__name__, None)
-    still = top.c == "many" and len(w) == 1 and isinstance(b, str) and b.startswith("ParserError")
-    return still, f"lenient {{'c': 'many'}} -> {top} with {len(w)} warning; nested {{'b': {{'n': 'many'}}}} -> {b}"
-
-
 FINDINGS = {
-    "C10-dict-best-strict-conversion": finding_dict_best_strict,
     "C10-wild-text-takes-unknown-attrs": finding_wild_text,
     "C10-dict-derived-keys": finding_dict_derived,
-    "C10-dict-best-rejects-unknown": finding_dict_best,
 }
 
 TRUSTED = [
@@ -800,6 +732,8 @@ LEVEL_NOTE = (
     "subtree; an unknown element at any child position, any depth (InjectedKids), leaves parseKids/parseNode/parseRoot unchanged when "
     "fail_on_unknown_properties is off and gives ParserError when it is on; children of simple-typed elements give XmlContextError; decision "
     "table of bind_attrs for unknown / xsi attributes; conversion failures keep the given string with exactly one warning or raise ParserError. "
-    "Dictionary decoder: same two theorems for the key loop of bind_dataclass. Three full-strength statements are false of the code and are proved "
-    "false with witnesses that reproduce on the real library (known findings); their partial versions are proved."
+    "Dictionary decoder: same two theorems for the key loop of bind_dataclass, and for bind_best_dataclass (keys no candidate declares are ignored / "
+    "rejected by the flag; strict trial first, lenient ranking when fail_on_converter_warnings is off). The full-strength statements that are still false "
+    "of the code (derived-keys shortcut, wildcard text) are proved false with witnesses that reproduce on the real library (known findings); "
+    "their partial versions are proved."
 )
